@@ -3,7 +3,7 @@
 //! call history, fresh process) and require byte equality with the canonical environment.
 
 use simkernel::cli::{self, PlanSpec, Scratch};
-use simkernel::gen::gen_wsdl_set;
+use simkernel::gen::{gen_wsdl_set, gen_wsdl_set_opt};
 use simkernel::inputs::{input_sets, InputSet};
 use simkernel::serde_json::{json, Value};
 use simkernel::{panics, Chooser, Report, Rng, Violation};
@@ -55,7 +55,9 @@ fn build_work(tier: &str, seed: u64) -> Work {
     let n_gen = if tier == "thorough" { 600 } else { 40 };
     for g in 0..n_gen {
         let mut ch = Chooser::explore(Rng::derive(seed, "det-gen", g));
-        let (s, _) = gen_wsdl_set(&mut ch, g);
+        // every second generated set uses the wild profile (namespace abbreviation collisions, imports without
+        // schemaLocation, shadow siblings): inert on a correct tree, but they give leaked state something to bite on
+        let (s, _) = gen_wsdl_set_opt(&mut ch, g, g % 2 == 1);
         sets.push(s);
     }
     let scratch = Scratch::new("det");
